@@ -78,6 +78,13 @@ func (w *WalletManager) constructTxIn(inputs []*TxIn, lockTime uint64) (*wire.Ms
 			return nil, nil, massutil.ZeroAmount(), ErrInvalidParameter
 		}
 
+		// a pending previous transaction is found by hash alone: the index still has to be checked
+		if int64(txIn.PreviousOutPoint.Index) >= int64(len(prevTx.TxOut)) {
+			logging.CPrint(logging.ERROR, "Ouput index number (vout) does not exist for transaction", logging.LogFormat{
+				"index": txIn.PreviousOutPoint.Index,
+			})
+			return nil, nil, massutil.ZeroAmount(), ErrInvalidIndex
+		}
 		prevTxOut := prevTx.TxOut[txIn.PreviousOutPoint.Index]
 		pks, err := utils.ParsePkScript(prevTxOut.PkScript, w.chainParams)
 		if err != nil {
@@ -91,7 +98,8 @@ func (w *WalletManager) constructTxIn(inputs []*TxIn, lockTime uint64) (*wire.Ms
 		switch {
 		case pks.IsStaking():
 			txIn.Sequence = pks.Maturity()
-		case pks.IsBinding() && forks.EnforceMASSIP0002WarmUp(block.Height):
+		// block is nil for a pending previous transaction: it can only be mined in a future block
+		case pks.IsBinding() && (block == nil || forks.EnforceMASSIP0002WarmUp(block.Height)):
 			txIn.Sequence = consensus.MASSIP0002BindingLockedPeriod
 		default:
 		}
@@ -671,7 +679,8 @@ func (w *WalletManager) signWitnessTx(password []byte, tx *wire.MsgTx, hashType 
 		}
 
 		scriptFlags := txscript.StandardVerifyFlags
-		if forks.EnforceMASSIP0002WarmUp(cacheMeta[txIn.PreviousOutPoint.Hash].Height) {
+		// no block for a pending previous transaction: it can only be mined in a future block
+		if meta := cacheMeta[txIn.PreviousOutPoint.Hash]; meta == nil || forks.EnforceMASSIP0002WarmUp(meta.Height) {
 			scriptFlags |= txscript.ScriptMASSip2
 		}
 		// Either it was already signed or we just signed it.
